@@ -1,4 +1,5 @@
 import RdpModel.Gui.Blit
+import RdpModel.Codec.Decompress
 namespace Rdp.Driver
 open Rdp Rdp.Gui
 
@@ -28,6 +29,22 @@ def specBlit (width buflen : Nat) (g : Geo) (imgpix : Nat) : String :=
   else "-"
 
 def c19 (toks : List String) : String :=
+  if toks.head? = some "blitz" then
+    match toks.tail.mapM String.toNat? with
+    | some [width, buflen, left, top, right, bottom, bw, bh] =>
+      let g : Geo := ⟨left, top, right, bottom, bw⟩
+      let buf := (List.range buflen).map bufCell
+      -- decompress of a compressed 32 bpp event carrying only the format header
+      match Codec.decompress ⟨bw, bh, 32, true, #[0x10]⟩ with
+      | .ok bytes =>
+        let img : List UInt32 := (List.range (bytes.length / 4)).map fun k =>
+          UInt32.ofNat ((bytes.getD (4 * k) 0).toNat + 256 * (bytes.getD (4 * k + 1) 0).toNat + 65536 * (bytes.getD (4 * k + 2) 0).toNat + 16777216 * (bytes.getD (4 * k + 3) 0).toNat)
+        let r := blit buf width g img
+        (match r.2 with | .ok _ => "ok " | .err _ => "E " | .panic _ => "P ") ++ showCells r.1.buf ++ "\t-"
+      | .err _ => "E " ++ showCells buf ++ "\t-"
+      | .panic _ => "P " ++ showCells buf ++ "\t-"
+    | _ => "bad-case"
+  else
   match toks.tail.mapM String.toNat? with
   | some [width, buflen, left, top, right, bottom, bw, bh, imgpix, _extra] =>
     let g : Geo := ⟨left, top, right, bottom, bw⟩
